@@ -335,6 +335,17 @@ pub fn exec(s: &mut CrdtSession, toks: &[&str]) -> Vec<String> {
         }
         return res;
     }
+    // C28 / C06 snapshot also when a transaction opens with a block edit (split_block / join_block)
+    if toks[0] == "crdt.rt.block" || toks[0] == "crdt.rt.join" {
+        if let Some(d) = s.replicas.get_mut(toks[1]) {
+            if d.pending_ops() == 0 && !s.tx_snapshots.contains_key(toks[1]) {
+                let snap = d.clone().save();
+                s.tx_snapshots.insert(toks[1].to_string(), snap);
+                let st = format!("{} keys={:?} marks={}", show_doc(d, None, enc), d.keys(ROOT).collect::<Vec<_>>(), marks_digest(d));
+                s.tx_state_snapshots.insert(toks[1].to_string(), st);
+            }
+        }
+    }
     exec_inner(s, toks, enc)
 }
 
@@ -1143,6 +1154,16 @@ pub fn local_tx(r: &mut Rng, sess: &mut Session, out: &mut Out, who: &str, known
                     // a negative count deletes backwards from `pos`; one that reaches before the start is an invalid call
                     else if r.chance(1, 10) { out.count("splice_negative_del"); -(r.range(1, pos.min(len) + 2) as i64) } else { 0 };
                 let txt = ["a", "bc", "é", "🙂", "xyz", "", "e\u{301}"][r.below(7) as usize];
+                #[cfg(feature = "e_richtext")]
+                let block_edit: Option<String> = if r.chance(1, 7) {
+                    let enc = sess.crdt.enc.unwrap_or(TextEncoding::UnicodeCodePoint);
+                    let (starts, blocks) = super::richtext::block_positions(sess.crdt.replicas.get(&who).unwrap(), &parse_exid(&obj), enc);
+                    if !blocks.is_empty() && r.chance(2, 3) { out.count("join_block"); Some(format!("crdt.rt.join {} {} {}", who, obj, blocks[r.below(blocks.len() as u64) as usize])) }
+                    else { out.count("split_block"); Some(format!("crdt.rt.block {} {} {}", who, obj, starts[r.below(starts.len() as u64) as usize])) }
+                } else { None };
+                #[cfg(not(feature = "e_richtext"))]
+                let block_edit: Option<String> = None;
+                if let Some(l) = block_edit { sess.crdt.marked_texts.insert(obj.clone()); l } else
                 if cfg!(feature = "e_richtext") && sess.crdt.marked_texts.contains(&obj) { format!("crdt.rt.splice {} {} {} {} {} -", who, obj, pos, del.max(0), hx(txt.as_bytes())) }
                 else { format!("crdt.splice {} {} {} {} {}", who, obj, pos, del, hx(txt.as_bytes())) }
             }
